@@ -7,7 +7,7 @@ import time
 from . import facts, mir
 
 VERIF = facts.VERIF
-EVIDENCE_DIR = os.path.join(VERIF, "evidence")
+EVIDENCE_DIR = os.environ.get("AGL_EVIDENCE_DIR") or os.path.join(VERIF, "evidence")
 KNOWN = os.path.join(VERIF, "known_findings.json")
 
 COMMON_ASSUMPTIONS = [
